@@ -44,6 +44,23 @@ SNIPPETS = {
       <ap><xsl:apply-templates select="//item" mode="sorted"><xsl:sort select="value" data-type="number"/><xsl:sort select="name" lang="en"/></xsl:apply-templates></ap>
     </sorted>
 """),
+    "sortcase": ("", """
+    <sortcase>
+      <xsl:for-each select="//item"><xsl:sort select="name" lang="en" case-order="upper-first"/><u><xsl:value-of select="name"/></u></xsl:for-each>
+      <xsl:for-each select="//item"><xsl:sort select="name" lang="en" case-order="lower-first"/><l><xsl:value-of select="name"/></l></xsl:for-each>
+      <xsl:for-each select="//item"><xsl:sort select="name" lang="en"/><n><xsl:value-of select="name"/></n></xsl:for-each>
+      <xsl:for-each select="//item"><xsl:sort select="name" lang="en" case-order="upper-first"/><u2><xsl:value-of select="name"/></u2></xsl:for-each>
+      <xsl:for-each select="//item"><xsl:sort select="@cat" lang="fr" case-order="lower-first"/><xsl:sort select="name" lang="fr" case-order="upper-first"/><xsl:sort select="name" lang="en" case-order="lower-first"/><m><xsl:value-of select="@id"/></m></xsl:for-each>
+      <xsl:for-each select="//item"><xsl:sort select="name" lang="de" case-order="upper-first" order="descending"/><d><xsl:value-of select="name"/></d></xsl:for-each>
+      <xsl:for-each select="//item"><xsl:sort select="name" lang="sv" case-order="lower-first"/><s><xsl:value-of select="name"/></s></xsl:for-each>
+      <xsl:for-each select="//item"><xsl:sort select="name" lang="tr" case-order="upper-first"/><t><xsl:value-of select="name"/></t></xsl:for-each>
+      <xsl:for-each select="//item"><xsl:sort select="name" case-order="upper-first"/><p><xsl:value-of select="name"/></p></xsl:for-each>
+      <xsl:apply-templates select="//item" mode="sorted"><xsl:sort select="name" lang="de" case-order="lower-first"/><xsl:sort select="value" data-type="number"/></xsl:apply-templates>
+    </sortcase>
+"""),
+    "uent": ("", """
+    <uent><xsl:value-of select="unparsed-entity-uri('pic')"/>|<xsl:value-of select="unparsed-entity-uri('nosuch')"/></uent>
+"""),
     "format": ("""
   <xsl:decimal-format name="eu" decimal-separator="," grouping-separator="." NaN="nan" infinity="inf"/>
   <xsl:decimal-format decimal-separator="." grouping-separator="," minus-sign="-"/>
@@ -163,8 +180,14 @@ NAMES = ["apple", "Apple", "banana", "cherry", "éclair", "eclair", "Zebra", "ze
          "coté", "ångström", "angstrom", "Ob", "ob", "Öl", "mango", "kiwi"]
 
 
-def make_xml(rng, n_items):
-    out = ['<?xml version="1.0" encoding="UTF-8"?>\n<!DOCTYPE data [\n<!ATTLIST item id ID #REQUIRED>\n]>\n<data>\n']
+def make_xml(rng, n_items, ids=True, entity=False):
+    """ids=False: no DTD at all (no ID attributes, no unparsed entities: the document's id and entity maps
+    stay empty); entity=True additionally declares an unparsed entity 'pic'"""
+    dtd = ""
+    if ids:
+        dtd = '<!DOCTYPE data [\n<!ATTLIST item id ID #REQUIRED>\n' + \
+              ('<!NOTATION gif SYSTEM "image/gif">\n<!ENTITY pic SYSTEM "http://example.org/pic.gif" NDATA gif>\n' if entity else "") + ']>\n'
+    out = ['<?xml version="1.0" encoding="UTF-8"?>\n' + dtd + '<data>\n']
     i = 0
     depth_open = 0
     nsec = max(1, n_items // 4)
